@@ -3,3 +3,4 @@ import Model.RunLoop
 import Model.Metadata
 import Model.Assign
 import Model.ErrorPolicy
+import Model.FileStore
